@@ -255,7 +255,13 @@ open Gen.FaultFootprint in
     probing solve).  The re-throw is the BARE `throw;` (fourth component `true`, the handler's only throw expression), and
     `rethrow_by_value = []`: nowhere in the scanned classes is a caught object thrown again by value (`throw e;` creates a new
     object of the handler's declared type: the user's exception is sliced, dynamic type and payload are lost; seeded change
-    C14b/patch2, failing input: `exception-sliced`), nor transported through `std::exception_ptr`/`throw_with_nested`. -/
+    C14b/patch2, failing input: `exception-sliced`), nor transported through `std::exception_ptr`/`throw_with_nested`.
+    `catch_handler_decl` lists the exception-declaration of EVERY catch clause of the scanned classes with its function, so a
+    typed handler anywhere — e.g. `catch (const std::invalid_argument&) { throw std::invalid_argument("friendlier text"); }`
+    around `m_fac.init()` in `HermEigsBase::init`, which also intercepts a USER exception derived from `std::invalid_argument`
+    thrown by the operator during `init()` and replaces it by another object (seeded change C14c/patch3; failing input:
+    harness fault kind invalid_argument_rich at an application inside `init()`, `exception-replaced`) — adds an entry
+    (and entries to `try_catch`, `catch_handlers`, `throws`) and breaks this theorem and `c14_rethrow_same_object`. -/
 theorem c14_no_leak :
     raw_alloc = [] ∧ required_missing = [] ∧
     try_catch = [("GenEigsComplexShiftSolver", "sort_ritzpair", "catch"), ("GenEigsComplexShiftSolver", "sort_ritzpair", "try")] ∧
